@@ -37,8 +37,11 @@ var c05Keys = []string{"k1", "k2", "k3"}
 func genC05(r *Rng, tier string, idx int) *Plan {
 	p := &Plan{Knobs: map[string]int64{}, SKnobs: map[string]string{}}
 	if idx%5 == 4 {
-		if (idx/5)%2 == 1 {
+		switch (idx / 5) % 3 {
+		case 1:
 			return genConnConc(r, tier, p)
+		case 2:
+			return genC05BG(r, tier, p)
 		}
 		return genC05Actors(r, tier, p)
 	}
@@ -183,6 +186,9 @@ func canonResult(args []string, r Result) string {
 func runC05(t *testing.T, p *Plan) *Outcome {
 	if p.Profile == "actors" {
 		return runC05Actors(t, p)
+	}
+	if p.Profile == "bg" {
+		return runC05BG(t, p)
 	}
 	return runConcCore(t, p, "C05")
 }
